@@ -70,6 +70,18 @@ func genPolicy(r *engine.PRNG) simio.ChunkPolicy {
 	}
 }
 
+// genBigPolicy: chunkings for streams that hold a frame around 1 MiB.
+func genBigPolicy(r *engine.PRNG) simio.ChunkPolicy {
+	switch r.Intn(4) {
+	case 0:
+		return simio.ChunkPolicy{Kind: "whole"}
+	case 1:
+		return simio.ChunkPolicy{Kind: "fixed", N: r.PickInt(4096, 65536, 100000, 1<<20)}
+	default:
+		return simio.ChunkPolicy{Kind: "hashed", N: r.PickInt(5000, 70000, 300000), Seed: r.Uint64()}
+	}
+}
+
 func genPass(r *engine.PRNG) ReadPass {
 	p := ReadPass{Policy: genPolicy(r), Piggyback: r.Chance(1, 2)}
 	if r.Chance(1, 3) {
@@ -94,8 +106,23 @@ func (FramesClean) Generate(seed uint64, tier string) engine.Plan {
 		}
 		nm := 1 + r.Intn(6)
 		total := int64(0)
+		bigAt := -1
+		if r.Chance(1, 80) {
+			// one frame around/above the 1 MiB incremental-read threshold, usually
+			// followed by another frame (what a reader that over-consumes would eat)
+			if nm < 2 && r.Chance(3, 4) {
+				nm = 2 + r.Intn(2)
+			}
+			bigAt = r.Intn(nm)
+			if r.Chance(1, 2) {
+				bigAt = 0
+			}
+		}
 		for i := 0; i < nm; i++ {
 			m := genMsg(r, maxLen)
+			if i == bigAt {
+				m = genBigMsg(r)
+			}
 			w.Msgs = append(w.Msgs, m)
 			total += int64(32 + m.Len + 16)
 		}
@@ -112,7 +139,14 @@ func (FramesClean) Generate(seed uint64, tier string) engine.Plan {
 		}
 		np := 2 + r.Intn(3)
 		for i := 0; i < np; i++ {
-			w.Passes = append(w.Passes, genPass(r))
+			ps := genPass(r)
+			if bigAt >= 0 {
+				ps.Policy = genBigPolicy(r) // byte-at-a-time over a megabyte costs too much
+				if np > 2 {
+					np = 2
+				}
+			}
+			w.Passes = append(w.Passes, ps)
 		}
 		if w.Dest != "writer" && r.Chance(1, 2) {
 			w.Passes[r.Intn(np)].Via = "atreader"
@@ -333,6 +367,12 @@ func (FramesClean) Execute(pl engine.Plan, c *engine.RunCtx) *engine.Failure {
 				if len(bodies[i]) == 0 {
 					st.Inc("probe.C06.empty_body")
 				}
+				if len(bodies[i]) > 1<<20 {
+					st.Inc("probe.C06.body_above_1MiB")
+					if i+1 < len(w.Msgs) {
+						st.Inc("probe.C06.frame_follows_a_body_above_1MiB")
+					}
+				}
 				if spec.Versioned && len(spec.Version()) == 16 {
 					st.Inc("probe.C06.version_16_bytes")
 				}
@@ -451,7 +491,10 @@ func (FramesClean) Shrink(pl engine.Plan) []engine.Plan {
 		}
 		for i, m := range w.Msgs {
 			if m.Len > 0 {
-				for _, nl := range []int{0, 1, m.Len / 2} {
+				for _, nl := range []int{0, 1, m.Len / 2, 1<<20 + 1} {
+					if nl > m.Len {
+						continue
+					}
 					if nl != m.Len {
 						q := clone()
 						q.Writers[wi].Msgs[i].Len = nl
